@@ -30,6 +30,7 @@ func (w *World) opTable() []opFn {
 			return len(w.podsWhere(func(p *PodInfo) bool { return p.Node != "" && p.Phase == "Pending" })) > 0
 		}, w.opKubeletRun},
 		{"delete-pod", 6, func() bool { return len(w.pods) > 0 }, w.opDeletePod},
+		{"finish-termination", 3, func() bool { return len(w.podsWhere(func(p *PodInfo) bool { return p.Terminating })) > 0 }, w.opFinishTermination},
 		{"scale", 3, func() bool { return len(w.liveApps()) > 0 }, w.opScale},
 		{"delete-app", 1, func() bool { return len(w.liveApps()) > 0 }, w.opDeleteApp},
 		{"rolling-update", 2, func() bool { return len(w.appsOfKind("dp")) > 0 }, w.opRollingUpdate},
@@ -310,7 +311,7 @@ func (w *World) createPod(a *App, name string) {
 
 func (w *World) schedulable() []*PodInfo {
 	return w.podsWhere(func(p *PodInfo) bool {
-		return p.Node == "" && p.live() && w.schedBusy[p.UID] == nil && !w.unsched[p.UID]
+		return p.Node == "" && p.live() && !p.Terminating && w.schedBusy[p.UID] == nil && !w.unsched[p.UID]
 	})
 }
 
@@ -405,7 +406,31 @@ func (w *World) opDeletePod() {
 	if len(ks) == 0 {
 		return
 	}
-	w.deletePod(w.pods[pick(w.C, ks)], "deleted")
+	p := w.pods[pick(w.C, ks)]
+	if !p.Terminating && p.Node != "" && p.live() && w.C.Prob(1, 3) {
+		// graceful deletion: the API server only sets the deletion timestamp; the pod exists, keeps running and keeps its
+		// IP until the kubelet has stopped it and the object is removed (a later delete-pod / finish-termination)
+		p.Terminating = true
+		w.K.Patch(nil, "pods", p.NS, p.Name, func(m map[string]interface{}) {
+			md, _ := m["metadata"].(map[string]interface{})
+			if md != nil {
+				md["deletionTimestamp"] = "2026-01-01T00:00:00Z"
+				md["deletionGracePeriodSeconds"] = 30
+			}
+		})
+		w.S.Stat("pod.graceful-deletion-started")
+		return
+	}
+	w.deletePod(p, "deleted")
+}
+
+// opFinishTermination: the kubelet has stopped a gracefully deleted pod, the object goes away.
+func (w *World) opFinishTermination() {
+	ps := w.podsWhere(func(p *PodInfo) bool { return p.Terminating })
+	if len(ps) == 0 {
+		return
+	}
+	w.deletePod(pick(w.C, ps), "deleted")
 }
 
 func (w *World) opScale() {
